@@ -811,6 +811,23 @@ func (e *env) checkConservation(store interface {
 			x.Probe("no-coinbase-block-with-fees")
 		}
 	}
+	if sa.Cmp(want) > 0 && rcpts != nil && len(rcpts.Get()) == len(blk.GetBody().GetTxs()) {
+		// listed known finding: a fee-delegated call that sent funds away and then could not pay
+		// the fee leaves the recipients credited and the contract not debited; exactly that sum
+		known := new(big.Int)
+		for i, tx := range blk.GetBody().GetTxs() {
+			if feeDelegUnpayable(tx, rcpts.Get()[i]) {
+				known.Add(known, sentAway(string(tx.GetBody().GetPayload()), tx.GetBody().GetRecipient()))
+			}
+		}
+		if known.Sign() > 0 && new(big.Int).Sub(sa, want).Cmp(known) == 0 {
+			x.Probe("fee-delegated-call-sent-funds-then-could-not-pay-fee")
+			if x.FailKnownOrStop("C01", "supply-changed", "minted-by-"+knownFeeDelegSig, fmt.Sprintf("block %d: supply grew by %s = what fee-delegated calls sent away before failing with %q", blk.BlockNo(), known, types.ErrInsufficientBalance), e.stepIdx) {
+				return
+			}
+			return
+		}
+	}
 	if sa.Cmp(want) != 0 {
 		kind := "minted"
 		if sa.Cmp(want) < 0 {
